@@ -1,7 +1,7 @@
 (* C02 — Returned values reach the nearest receiver above; zero if nothing below ran. *)
 From Coq Require Import List Arith Bool.
 Import ListNotations.
-From NJ Require Import Base Registry Classify Select Reorder Machine Spec Bind Refine Chain SpecLemmas.
+From NJ Require Import Base Registry Classify Select Reorder Machine Spec Bind Refine Chain SpecLemmas CoverProofs.
 
 (* The run part of any program: machine and reference semantics agree on the world, on completion
    and the final array represents the reference up environment (what invoke / the enclosing
@@ -43,3 +43,14 @@ Theorem C02_inner_receives : forall W r srest d w1 iargs k lastu count,
   end.
 Proof. exact run_sem_inner. Qed.
 Print Assumptions C02_inner_receives.
+
+(* Each value an included provider listed from the invoke function on receives from inner() (the
+   invoke function's own results included) is read from an allocated up slot - the slot of the type
+   its source below returns.  No hypothesis about the plan.  (Defect D30 was a failure of this.) *)
+Theorem C02_no_unallocated_received_value : forall c pl,
+  plan_of c = Ok pl ->
+  forall k p t, pl_invokeIndex pl <= k -> getp (pl_funcs pl) k = Some p -> p_include p = true ->
+    In t (pflow p FRecv) -> t <> te_noT (bc_te c) ->
+    exists i, su_of (pl_slots pl) (remap (p_upR p) t) = Some i.
+Proof. intros c pl H. exact (proj2 (plan_covers c pl H)). Qed.
+Print Assumptions C02_no_unallocated_received_value.
